@@ -18,7 +18,7 @@ ASSUMPTIONS = ["fault -> code table follows hed/errors/schema_error_messages.py 
                "SCHEMA_ATTRIBUTE_INVALID, SCHEMA_ATTRIBUTE_VALUE_INVALID, SCHEMA_DEPRECATION_ERROR)",
                "hedId faults are seeded on a copy of 8.3.0 whose version is bumped to 8.4.0 so that 8.3.0 is the previous "
                "release found in the hermetic cache", "SCHEMA_PRERELEASE_VERSION_USED is ignored"]
-MIN_MONITOR_EVALS = {"released-schema-no-error": 9, "seeded-fault-has-code": 120, "warnings-off-only-errors": 120}
+MIN_MONITOR_EVALS = {"released-schema-no-error": 9, "seeded-fault-has-code": 120, "warnings-off-only-errors": 120, "group-compliance-equals-members": 8}
 WATCHDOG_S = {"quick": 1500, "thorough": 7200}
 CODES = {"duplicate-node": "SCHEMA_DUPLICATE_NODE", "library-node-named-as-standard": "SCHEMA_LIBRARY_INVALID", "attribute-from-other-section": "SCHEMA_ATTRIBUTE_INVALID",
          "unknown-attribute": "SCHEMA_ATTRIBUTE_INVALID", "missing-unit-class": "SCHEMA_ATTRIBUTE_VALUE_INVALID",
@@ -33,8 +33,43 @@ SEED_SCHEMAS = {"quick": ["8.3.0", "8.2.0", "score_2.0.0"],
                 "thorough": ["8.3.0", "8.2.0", "8.1.0", "8.0.0", "score_2.0.0", "score_1.1.0", "testlib_3.0.0", "testlib_2.0.0"]}
 
 
+GROUPS = [["8.3.0", "sc:score_2.0.0"], ["8.2.0", "sc:score_1.1.0"], ["8.2.0", "tl:testlib_2.0.0"], ["aa:8.3.0", "sc:score_1.1.0"],
+          ["8.1.0", "tl:testlib_3.0.0", "sc:score_1.1.0"]]
+
+
+def check_group(versions, rec):
+    """A group of schemas is checked member by member: with warnings on and off it returns what its members return."""
+    from hed.schema import load_schema_version
+    case = dict(kind="group", versions=versions)
+    key = lambda i: (i["code"], i["severity"], i["message"])      # noqa
+    for warn in (True, False):
+        rec.mon("group-compliance-equals-members")
+        rec.case(("group", tuple(versions), warn))
+        try:
+            env.clear_hed_caches()
+            g = load_schema_version(versions)
+            got = g.check_compliance(check_for_warnings=warn)
+            want = []
+            for v in versions:
+                want += load_schema_version(v).check_compliance(check_for_warnings=warn)
+        except Exception as ex:  # noqa
+            rec.violation(f"compliance check of a schema group raised {type(ex).__name__}", case)
+            return
+        if not warn and any(i["severity"] != 1 for i in got):
+            rec.violation("check_compliance of a group with warnings off returned an issue that is not an error", case)
+            return
+        if warn and not any(i["severity"] != 1 for i in want):
+            rec.count("group-without-warnings", "/".join(versions))
+        if sorted(map(key, got)) != sorted(map(key, want)):
+            rec.violation("a group's compliance issues differ from those of its members checked one by one",
+                          dict(case, warnings=warn))
+            return
+
+
 def shards(tier, seed):
     out = [dict(kind="released", version=v) for v in env.STANDARD + env.PARTNERED]
+    for versions in GROUPS:
+        out.append(dict(kind="group", versions=versions))
     for v in SEED_SCHEMAS[tier]:
         for fault in CODES:
             npos = 10 if tier == "quick" else (400 if v == "8.3.0" else 200)
@@ -358,6 +393,9 @@ def run_shard(shard, rec):
                           dict(kind="released", version=v))
         rec.sample(dict(version=v, warnings=sorted({i["code"] for i in issues})))
         return
+    if shard["kind"] == "group":
+        check_group(shard["versions"], rec)
+        return
     for pos in range(shard["start"], shard["start"] + shard["n"]):
         case = dict(kind="seeded", version=shard["version"], fault=shard["fault"], pos=pos, exhaustive=shard["exhaustive"])
         if check_seeded(case, rec):
@@ -376,5 +414,7 @@ def finalize(merged, tier, inconclusive):
 def replay(case, rec):
     if case.get("kind") == "seeded":
         check_seeded(case, rec)
+    elif case.get("kind") == "group":
+        check_group(case["versions"], rec)
     else:
         run_shard(dict(kind="released", version=case["version"]), rec)
